@@ -126,9 +126,10 @@ class KeySet:
         for key in self.keys:
             # trigger key to generate kid via thumbprint
             key.ensure_kid()
-            if isinstance(key, OctKey):
+            if isinstance(key, OctKey) and private is not False:
                 keys.append(key.as_dict(**params))
             else:
+                # a public export never contains private material, the "k" of symmetric keys included
                 keys.append(key.as_dict(private=private, **params))
         return {"keys": keys}
 
